@@ -340,10 +340,10 @@ when_kernel Gzx.Gen.K02e.decodeEdifactSegment in
     prefixed below 32), an unlatch value 31 skips the rest of its byte, fewer than three bytes are left to ASCII -/
 theorem k_decodeEdifactSegment_eq (fuel : Nat) (bs : List Nat) (hb : ∀ b ∈ bs, b < 256) (off : Nat) (hoff : off ≤ bs.length)
     (hf : bs.length + 2 ≤ fuel) (result : List Int) (a : Acc) (n : Nat) :
-    ∃ d k, edifactSeg (bs.drop off) a n = (a.pushAll d, n + k) ∧
+    ∃ d k, edifactOut (bs.drop off) = (d, k) ∧ edifactSeg (bs.drop off) a n = (a.pushAll d, n + k) ∧
       Gen.K02e.decodeEdifactSegment fuel (bytesI bs) (off : Int) 0 result
         = .ok (result ++ bytesI d, ((off + k : Nat) : Int), 0, result ++ bytesI d) := by
-  refine ⟨(edifactOut (bs.drop off)).1, (edifactOut (bs.drop off)).2, edifactSeg_eq_out _ _ _, ?_⟩
+  refine ⟨(edifactOut (bs.drop off)).1, (edifactOut (bs.drop off)).2, rfl, edifactSeg_eq_out _ _ _, ?_⟩
   have hk : Gen.K02e.decodeEdifactSegment fuel (bytesI bs) (off : Int) 0 result
       = (whileLoop (Gen.K02e.decodeEdifactSegment_body1 fuel (bytesI bs)) fuel ((off : Int), 0, result)).thenR
           (fun st => .ok (st.2.2, st.1, st.2.1, st.2.2)) := by
